@@ -686,6 +686,9 @@ func (ch *channel) deriveAndSetBitrates() {
 				totDur += uint64(sdb.items[i].dur)
 				totSize += uint64(sdb.items[i].totSize)
 			}
+			if totDur == 0 {
+				continue // Only segments without duration so far
+			}
 			bitrate := uint32(totSize * 8 * uint64(timeScale) / totDur)
 		repLoop:
 			for _, asSet := range ch.mpd.Periods[0].AdaptationSets {
